@@ -194,6 +194,24 @@ def run(R):
                         break
                 else:
                     R.traces += 1
+    # literal bounds written with leading zeros are the same numbers
+    for form, m, u in (('{00}', 0, 0), ('{01}', 1, 1), ('{,00}', 0, 0), ('{2,03}', 2, 3), ('{01,}', 1, None), ('{002}', 2, 2), ('{0,01}', 0, 1)):
+        d = f'start = ["a"{form}, /[ab]*/]\n'
+        R.count('parameter-bounds', d, nontrivial=True)
+        try:
+            g = Grammar(d)
+        except Exception as e:              # noqa
+            R.counterexample('parameter-bounds', 'literal-bound:grammar-rejected:' + type(e).__name__, {'grammar': d}, 'a grammar module', repr(e)[:150])
+            continue
+        for t in PT:
+            c = expect(m, u, t)
+            got = api(g, t)
+            want = 'ParseError' if c is None else 'return ' + repr([['a'] * c, t[c:]])
+            if (c is None and not got.startswith('error at')) or (c is not None and got != want):
+                R.counterexample('parameter-bounds', 'literal-bound:wrong-outcome', {'grammar': d, 'text': t, 'lower': m, 'upper': u}, want, got)
+                break
+        else:
+            R.traces += 1
     R.assumptions += ['regular expressions are an oracle (tables computed with Python re)',
                       'e{m,n} with a run-time m > n is outside the property (the constructor rejects it for literals): the specification makes no claim there']
     return R.finish(
